@@ -68,3 +68,14 @@ def check_alphabet(a: str, b: str) -> bool:
     want = set(my_split(a)) | set(my_split(b))
     want.discard(".")
     return get_alphabet_from_selfies([a, b]) == want
+
+
+def check_alphabet3(a: str, b: str, c: str) -> bool:
+    """
+    pre: len(a) <= 3 and len(b) <= 3 and len(c) <= 3
+    pre: wellformed(a) and wellformed(b) and wellformed(c)
+    post: _
+    """
+    want = set(my_split(a)) | set(my_split(b)) | set(my_split(c))
+    want.discard(".")
+    return get_alphabet_from_selfies([a, b, c]) == want
